@@ -2,6 +2,7 @@ package main
 
 import (
 	"fmt"
+	"os"
 
 	"golang.org/x/tools/go/packages"
 )
@@ -50,6 +51,9 @@ func checkC03(c *Ctx) {
 	c.Decides("ROOT-WRITE (shared with C05): every write of Tree.root in package tree is the setter, a listed case that needs no re-orientation, or is followed by ReorderEdges(<the new root>, nil, ...)")
 	c.rootWrites("ROOT-WRITE", "every branch pointing away from the root")
 	c.Floor("ROOT-WRITE", 4)
+	if os.Getenv("GTVERIF_DISCOVER") != "" {
+		c.reindexLast("REINDEX-LAST", nil, "", true)
+	}
 	c.Decides("ORIENT-CUR: every flip of a branch (Edge.Inverse) in package tree is guarded by a condition reading the current left/right end of a branch (directly, through getters, through locals, or through a helper that reads them) and never only by remembered state")
 	c.Extra["flip_sites"] = c.orientCurrentRule("ORIENT-CUR")
 	c.Floor("ORIENT-CUR", 3)
